@@ -22,7 +22,7 @@ def consts(sc):
 
 
 def harness_scen(sc, kind=None, share=None):
-    h = {"obj": dict({"kind": kind or sc["kind"], "keys": sc["keys"], "bounds": [100]}, **({"share": share, "creator": sc["threads"][0]} if share else {})), "threads": sc["threads"], "scripts": sc["scripts"], "budget": sc.get("budget", 3000)}
+    h = {"obj": dict({"kind": kind or sc["kind"], "keys": sc["keys"], "bounds": [100]}, **({"shape": sc["shape"]} if "shape" in sc else {}), **({"share": share, "creator": sc["threads"][0]} if share else {})), "threads": sc["threads"], "scripts": sc["scripts"], "budget": sc.get("budget", 3000)}
     if "pre" in sc:
         h["pre"] = sc["pre"]          # initial population, made by the controller before the threads start
     return h
@@ -76,6 +76,11 @@ def RMM(key): return {"k": "remove", "key": key, "form": "map"}
 S1m = dict(S1, scripts={"t1": [WM("a"), HI(0, 1), CO], "t2": [W("a"), HI(0, 2), WM("b", 1)]})
 S6m = dict(S6, scripts={"t1": [WM("a"), HI(0, 1), RMM("a"), CO], "t2": [WM("a"), RM("a"), HI(0, 2)]})
 S10m = dict(S10, scripts={"t1": [WM("k"), HI(0, 1)], "t2": [WM("k"), HI(0, 2)], "t3": [RMM("f"), CO]})
+# the same races on a vector with a constant label and two variable labels declared out of alphabetical order
+S1o, S6o, S10o = dict(S1, shape="odd"), dict(S6m, shape="odd"), dict(S10, shape="odd")
+# a thread that alternates between two existing children while another removes and re-creates one of them
+S11 = {"flavor": "int", "kind": "intcountervec", "keys": ["x", "y"], "maxid": 4, "threads": ["t1", "t2"], "pre": [W("x", 0), W("y", 0)],
+       "scripts": {"t1": [W("y", 0), W("x", 1), HI(1, 1), W("y", 0), W("x", 1), HI(1, 4)], "t2": [RM("x"), W("x", 0), HI(0, 2), CO]}}
 INVS = "LockSafety OneChildPerKey FreshHandleIsCurrent IdsBounded"
 
 
@@ -204,8 +209,8 @@ def run(ctx):
         run_scenario(ctx, exe, S6, "S6", stats, samples, nrandom=300, kinds=["intcountervec"])
         run_scenario(ctx, exe, S8, "S8", stats, samples, model=False, check=False, nrandom=40, kinds=["intcountervec"], pb=(2, 40))
         run_scenario(ctx, exe, S10, "S10", stats, samples, model=False, check=False, nrandom=200, kinds=["intcountervec"], pb=(2, 500))
-        for sc, lb in ((S1m, "S1m"), (S6m, "S6m"), (S10m, "S10m")):
-            run_scenario(ctx, exe, sc, lb, stats, samples, model=False, check=False, nrandom=100, kinds=["intcountervec", "countervec"] if lb == "S1m" else ["intcountervec"], pb=(2, 300))
+        for sc, lb in ((S1m, "S1m"), (S6m, "S6m"), (S10m, "S10m"), (S1o, "S1o"), (S6o, "S6o"), (S10o, "S10o"), (S11, "S11")):
+            run_scenario(ctx, exe, sc, lb, stats, samples, model=False, check=False, nrandom=100, kinds=["intcountervec", "countervec"] if lb in ("S1m", "S1o") else ["intcountervec"], pb=(2, 300))
         run_scenario(ctx, exe, S9, "S9", stats, samples, model=False, check=False, nrandom=6, kinds=["intcountervec"], pb=(1, 24))
         # composition: a vector of HISTOGRAMS (children are sharded histograms, updates are observe calls)
         run_scenario(ctx, exe, S2, "S2h", stats, samples, model=False, check=False, nrandom=150, kinds=["histogramvec"])
@@ -216,6 +221,8 @@ def run(ctx):
         run_scenario(ctx, exe, S10, "S10", stats, samples, model=False, check=False, nrandom=5000, kinds=["intcountervec", "countervec"], pb=(3, 20000))
         for sc, lb in ((S1m, "S1m"), (S6m, "S6m"), (S10m, "S10m")):
             run_scenario(ctx, exe, sc, lb, stats, samples, model=False, check=False, nrandom=3000, kinds=["intcountervec", "countervec", "histogramvec"], pb=(3, 10000))
+        for sc, lb in ((S1o, "S1o"), (S6o, "S6o"), (S10o, "S10o"), (S11, "S11")):
+            run_scenario(ctx, exe, sc, lb, stats, samples, model=False, check=False, nrandom=3000, kinds=["intcountervec", "countervec"], pb=(3, 10000))
         run_scenario(ctx, exe, S9, "S9", stats, samples, model=False, check=False, nrandom=100, kinds=["intcountervec", "countervec"], pb=(2, 600))
         run_scenario(ctx, exe, S6, "S6", stats, samples, nrandom=3000, kinds=["intcountervec", "countervec"])
         run_scenario(ctx, exe, S7, "S7", stats, samples, model=False, nrandom=10000, kinds=["intcountervec"])
